@@ -181,6 +181,15 @@ func checkC19(c C19Case) h.Outcome {
 		o.Violation = h.V("encryption-cert-differs"+keysig, "published encryption certificate is not %v (%d descriptors)", wantEnc, len(encryption))
 		return o
 	}
+	// the certificate accessors report the same two certificates
+	if b, err := c.SP.Build().GetEncryptionCertBytes(); err != nil || !bytes.Equal(b, wantEnc.DER()) {
+		o.Violation = h.V("encryption-cert-differs/accessor"+keysig, "GetEncryptionCertBytes reports something else than the published / decrypting certificate %v (err %v)", wantEnc, err)
+		return o
+	}
+	if b, err := c.SP.Build().GetSigningCertBytes(); err != nil || !bytes.Equal(b, wantSigner.DER()) {
+		o.Violation = h.V("signing-cert-differs/accessor"+keysig, "GetSigningCertBytes reports something else than the published / signing certificate %v (err %v)", wantSigner, err)
+		return o
+	}
 	ms := encryption[0].EncryptionMethods
 	if len(ms) == 0 {
 		o.Violation = h.V("no-encryption-methods", "no EncryptionMethod listed")
